@@ -1,5 +1,6 @@
 import LeanHelix.Driver.Parse
 import LeanHelix.Model.Worker
+import LeanHelix.Model.Loops
 /-!
 Driver for the `node` suite: every line is `<nodeIndex> <event> <args…>`; the driver keeps one
 `Worker.WNode` per index, runs `Worker.step`, and prints the node's observable reaction in a
@@ -160,6 +161,33 @@ def pNode (n : Worker.WNode) (outs : List Worker.WOut) : String :=
   let outs := outs.filter (fun o => match o with | .term (.commit _ _) => false | _ => true)
   let os := if outs.isEmpty then "-" else "|".intercalate (outs.map pWOut)
   s!"h={n.height} v={view} prep={prep} nv={nv} com={com} in={b01 n.term.isSome} cache={c} outs={os}"
+
+abbrev LNodes := List (Nat × Loops.LNode)
+
+def loopsStep (ns : LNodes) (toks : List String) : Option (LNodes × String) :=
+  let get (i : Nat) : Option Loops.LNode := (ns.find? (fun p => p.1 == i)).map (·.2)
+  let set (i : Nat) (n : Loops.LNode) : LNodes :=
+    if ns.any (fun p => p.1 == i) then ns.map (fun p => if p.1 == i then (i, n) else p) else ns ++ [(i, n)]
+  match toks with
+  | [i, "linit", me, inst] => do
+      let i ← natOf i
+      pure (set i { w := { me := ← idOfTok me, inst := ← natOf inst } }, "init")
+  | i :: ev :: rest => do
+      let i ← natOf i
+      let n ← get i
+      let (e, spiToks) : Loops.LEvent × List String ← (match ev, rest with
+        | "lmsg", "-" :: sp => pure (.msg none, sp)
+        | "lmsg", m :: sp => do pure (.msg (some (← tMsg (← parseTok m))), sp)
+        | "ltrigger", h :: v :: sp => do pure (.trigger (← natOf h) (← natOf v), sp)
+        | "lsync", "-" :: sp => pure (.sync none, sp)
+        | "lsync", h :: sp => do pure (.sync (some (← natOf h)), sp)
+        | "lcancel", sp => pure (.cancel, sp)
+        | _, _ => none)
+      let spi ← spiToks.mapM (fun s => do tSpi (← parseTok s))
+      let (n', outs) := Loops.step 100000 n e spi
+      let wm := match n'.w.reg.watermark with | none => "none" | some w => s!"{w.height}/{w.view}"
+      pure (set i n', s!"{pNode n'.w outs} shut={b01 n'.w.reg.shutdown} down={b01 n'.down}")
+  | _ => none
 
 abbrev Nodes := List (Nat × Worker.WNode)
 
